@@ -112,6 +112,7 @@ func TestVerifChainRules(t *testing.T) {
 				st.Timestamp + w.rules.MinEmptyBlockGap - 1, st.Timestamp + w.rules.MinEmptyBlockGap, st.Timestamp + w.rules.MinEmptyBlockGap + 1000}
 			ts := tsChoices[len(tsChoices)-1-r.Intn(2)]
 			tooLate, rootOK := false, true
+			nearLate, nearOK := int64(0), false
 			var badRoot *ids.ID
 			ntx := r.Intn(2)
 			if mode == "c11" {
@@ -122,8 +123,13 @@ func TestVerifChainRules(t *testing.T) {
 				case 1:
 					height = st.Height + 2
 				}
-				if r.Intn(10) == 0 {
+				switch r.Intn(10) {
+				case 0:
 					tooLate = true
+				case 1: // just beyond the future bound (sub-second): must still be rejected
+					tooLate, nearLate = true, int64(300+r.Intn(600))
+				case 2: // just inside the future bound: must not be rejected for being late
+					nearOK = true
 				}
 				if r.Intn(8) == 0 {
 					rootOK = false
@@ -140,8 +146,14 @@ func TestVerifChainRules(t *testing.T) {
 				ts = 0
 			}
 			realTs := ts
-			if tooLate {
-				realTs = time.Now().Add(3 * chain.FutureBound).UnixMilli()
+			t0 := time.Now()
+			switch {
+			case nearLate > 0:
+				realTs = t0.Add(chain.FutureBound).UnixMilli() + nearLate
+			case tooLate:
+				realTs = t0.Add(3 * chain.FutureBound).UnixMilli()
+			case nearOK:
+				realTs = t0.Add(chain.FutureBound).UnixMilli() - 300
 			}
 			var txs []*chain.Transaction
 			recs := []txRec{}
@@ -228,6 +240,9 @@ func TestVerifChainRules(t *testing.T) {
 				rec.dump(t, fmt.Sprintf("sc%05d", s))
 				t.Fatalf("scenario %d block %d: %v", s, b, err)
 			}
+			if nearLate > 0 && time.Since(t0).Milliseconds() > nearLate-150 {
+				continue // the call took so long that the block may legitimately have come inside the bound: not judged
+			}
 			if oc.Err != "" {
 				oc.Results, oc.Prices, oc.Consumed, oc.Post = []txResult{}, oc.Expected, []int64{0, 0, 0, 0, 0}, st
 			}
@@ -240,7 +255,7 @@ func TestVerifChainRules(t *testing.T) {
 			if realTs > 1<<40 && !tooLate {
 				// absolute timestamps next to the real genesis header (2023) do not fit TLC's integers: log them shifted
 				// by a whole number of seconds, which preserves every comparison and the alignment test
-				shift := pBlockTs/1000*1000 - 2_000_000
+				shift := realTs/1000*1000 - 2_000_000
 				logTs = realTs - shift
 				if oc.Err == "" {
 					oc.Post.Timestamp = logTs
